@@ -496,6 +496,9 @@ def guard_check(ctx, recipe, pool, points, mapping):
                 warnings.simplefilter("ignore")
                 B_ = Builder(pool)
                 e_g, e_t = B_.b(g), B_.b(taken)
+                # what Expr.__call__ does before it evaluates; a raise here (a constant folded while the expression is
+                # rebuilt) is a refusal to build, not an evaluation of the branch
+                expand(e_g)
         except Exception:
             continue
         if not isinstance(e_g, Expr) or not isinstance(e_t, Expr) or D.ops_of(g) & {o for o in D.ops_of(g) if o.split(":")[0] in DERIV_OPS}:
@@ -505,6 +508,10 @@ def guard_check(ctx, recipe, pool, points, mapping):
             try:
                 with warnings.catch_warnings():
                     warnings.simplefilter("ignore")
+                    # the condition's own operands and the taken branch must evaluate on their own
+                    for side_ in e_g.ufl_operands[0].ufl_operands:
+                        as_number(side_(xarg, mapping) if mapping else side_(xarg))
+                    bool(expand(e_g).ufl_operands[0].evaluate(xarg, mapping, (), StackDict()))  # the comparison itself
                     vt = as_number(e_t(xarg, mapping) if mapping else e_t(xarg))[0]
             except Exception:
                 continue
